@@ -354,6 +354,8 @@ theorem multiply_correct_of_setup (hr : ReprOK repr) (h : OTHash F) (hchi : ChiO
     ((List.range (makeGadget (lawful F repr) h).length).map fun i => h.sc2 (sp.1.getD i 0))).2.2, shareR, ?_, ?_⟩
   · unfold multiplyRun mulReceiverRound1 mulSenderRound1 mulReceiverRound2
     simp only [hch, hrr, hkos]
+    -- the shape checks of the receiver's second round pass on the honest message
+    rw [if_neg (by simp [mulSendFinish, additiveSend]), if_neg (by simp [additiveSend])]
     rw [additiveRecv_eq, additiveSend_result, hR]
   · rw [hsum, hglen, ← hch]
     have := gadget_encode_sum repr hr h hn beta gamma
@@ -363,15 +365,31 @@ theorem multiply_correct_of_setup (hr : ReprOK repr) (h : OTHash F) (hchi : ChiO
 
 /-! ### single-field alterations of the sender's message -/
 
-/-- `m'` differs from `m` in exactly one field: one component of one combined pad, one entry of
+/-- (value changes) `m'` differs from `m` in exactly one field: one component of one combined pad, one entry of
     `RCheck`, or `UCheck` (the new value is arbitrary) -/
-inductive SingleAlt (m m' : MulSendMsg F) : Prop
+inductive FieldAlt (m m' : MulSendMsg F) : Prop
   | comb0 (i : Nat) (x : F)
       (h : m' = { m with combined := m.combined.set i (x, (m.combined.getD i (0, 0)).2) })
   | comb1 (i : Nat) (x : F)
       (h : m' = { m with combined := m.combined.set i ((m.combined.getD i (0, 0)).1, x) })
   | rcheck (i : Nat) (x : F) (h : m' = { m with rCheck := m.rCheck.set i x })
   | ucheck (x : F) (h : m' = { m with uCheck := x })
+
+/-- a single-field alteration of the sender's message: the value of one field changed
+    (`FieldAlt`), or the LENGTH of one of its two vectors changed (truncated, extended, replaced by a
+    vector of another length) -/
+inductive SingleAlt (m m' : MulSendMsg F) : Prop
+  | field (h : FieldAlt m m')
+  | combLen (l' : List (F × F)) (hl : l'.length ≠ m.combined.length) (h : m' = { m with combined := l' })
+  | rcLen (l' : List F) (hl : l'.length ≠ m.rCheck.length) (h : m' = { m with rCheck := l' })
+
+theorem FieldAlt.lengths {m m' : MulSendMsg F} (h : FieldAlt m m') :
+    m'.combined.length = m.combined.length ∧ m'.rCheck.length = m.rCheck.length := by
+  cases h with
+  | comb0 i x hm => subst hm; simp
+  | comb1 i x hm => subst hm; simp
+  | rcheck i x hm => subst hm; simp
+  | ucheck x hm => subst hm; simp
 
 theorem getD_set {α : Type} (l : List α) (i j : Nat) (a d : α) :
     (l.set i a).getD j d = if i = j ∧ i < l.length then a else l.getD j d := by
@@ -411,8 +429,8 @@ end ring
 section domain
 variable [CommRing F] [IsDomain F] [DecidableEq F] (repr : F → Nat)
 
-/-- the receiver's second round on the (unmarshalled) sender message `m` -/
-def recvRound2 (h : OTHash F) (VC : List Nat) (gadget : List F) (choices : Nat) (chi : F × F)
+/-- the receiver's second round after the shape checks: additive OT, integrity check, share -/
+def recvCore (h : OTHash F) (VC : List Nat) (gadget : List F) (choices : Nat) (chi : F × F)
     (m : MulSendMsg F) : Option F :=
   mulRecvFinish (lawful F repr) chi gadget choices m.rCheck m.uCheck
     (additiveRecv (lawful F repr) h VC gadget.length choices m.combined)
@@ -421,10 +439,10 @@ def recvRound2 (h : OTHash F) (VC : List Nat) (gadget : List F) (choices : Nat) 
     differs from `m` in one field -/
 theorem alteration_core (h : OTHash F) (VC : List Nat) (gadget : List F) (choices : Nat) (chi : F × F)
     (hchi0 : chi.1 ≠ 0) (m m' : MulSendMsg F) (hlen : m.combined.length = gadget.length) (shareR : F)
-    (hon : recvRound2 repr h VC gadget choices chi m = some shareR) (halt : SingleAlt m m') :
-    recvRound2 repr h VC gadget choices chi m' = none ∨
-    recvRound2 repr h VC gadget choices chi m' = some shareR := by
-  unfold recvRound2 at hon ⊢
+    (hon : recvCore repr h VC gadget choices chi m = some shareR) (halt : FieldAlt m m') :
+    recvCore repr h VC gadget choices chi m' = none ∨
+    recvCore repr h VC gadget choices chi m' = some shareR := by
+  unfold recvCore at hon ⊢
   obtain ⟨comb, rc, u⟩ := m
   simp only at hon hlen
   cases halt with
@@ -497,6 +515,20 @@ theorem alteration_core (h : OTHash F) (VC : List Nat) (gadget : List F) (choice
       · exact hx (sub_eq_zero.mp h0)
       · exact hchi0 h0
 
+/-- the receiver's second round on the (unmarshalled) sender message `m`, as `mulReceiverRound2`:
+    the two length checks, then `recvCore` -/
+def recvRound2 (h : OTHash F) (VC : List Nat) (gadget : List F) (choices : Nat) (chi : F × F)
+    (m : MulSendMsg F) : Option F :=
+  if m.rCheck.length ≠ gadget.length then none
+  else if m.combined.length ≠ gadget.length then none
+  else recvCore repr h VC gadget choices chi m
+
+theorem recvRound2_of_len (h : OTHash F) (VC : List Nat) (gadget : List F) (choices : Nat) (chi : F × F)
+    (m : MulSendMsg F) (hc : m.combined.length = gadget.length) (hr : m.rCheck.length = gadget.length) :
+    recvRound2 repr h VC gadget choices chi m = recvCore repr h VC gadget choices chi m := by
+  unfold recvRound2
+  rw [if_neg (by simp [hr]), if_neg (by simp [hc])]
+
 /-- the message of the honest sender -/
 def honestMsg (h : OTHash F) (V0 V1 : List Nat) (gadget : List F) (alpha chi : F × F) : MulSendMsg F :=
   { combined := (additiveSend (lawful F repr) h V0 V1 gadget.length alpha).1
@@ -505,11 +537,17 @@ def honestMsg (h : OTHash F) (V0 V1 : List Nat) (gadget : List F) (alpha chi : F
     uCheck := (mulSendFinish (lawful F repr) chi gadget alpha
       (additiveSend (lawful F repr) h V0 V1 gadget.length alpha).2).2.1 }
 
+theorem honestMsg_lengths (h : OTHash F) (V0 V1 : List Nat) (gadget : List F) (alpha chi : F × F) :
+    (honestMsg repr h V0 V1 gadget alpha chi).combined.length = gadget.length ∧
+    (honestMsg repr h V0 V1 gadget alpha chi).rCheck.length = gadget.length := by
+  constructor <;> simp [honestMsg, additiveSend, mulSendFinish]
+
 /-- **multiply_single_alteration**: the honest sender's message is `m`; the receiver gets `m'`,
-    which differs from `m` in one field. Then the receiver's second round either fails its
-    integrity check or returns exactly the share of the unaltered run (so the two output shares still
-    add up to α·β) — provided the check weight χ₀ is non-zero. (χ₁ ≠ 0 is not needed: the second
-    components never reach the share.) -/
+    which differs from `m` in one field — a changed value, or a vector of another length. Then the
+    receiver's second round either returns an error (shape check or integrity check) or returns
+    exactly the share of the unaltered run (so the two output shares still add up to α·β) —
+    provided the check weight χ₀ is non-zero. (χ₁ ≠ 0 is not needed: the second components never
+    reach the share.) -/
 theorem multiply_single_alteration (h : OTHash F) (V0 V1 VC : List Nat) (gadget : List F) (choices : Nat)
     (alpha chi : F × F) (hchi0 : chi.1 ≠ 0)
     (hvc : ∀ i, i < gadget.length → VC.getD i 0 = if choices.testBit i then V1.getD i 0 else V0.getD i 0)
@@ -517,17 +555,33 @@ theorem multiply_single_alteration (h : OTHash F) (V0 V1 VC : List Nat) (gadget 
     recvRound2 repr h VC gadget choices chi m' = none ∨
     recvRound2 repr h VC gadget choices chi m'
       = recvRound2 repr h VC gadget choices chi (honestMsg repr h V0 V1 gadget alpha chi) := by
-  have hadd := additive_sum repr h V0 V1 VC gadget.length choices alpha hvc
-  simp only [additiveRecv_eq, additiveSend_result] at hadd
-  obtain ⟨shareR, hR, _⟩ := mul_finish_correct repr chi alpha gadget gadget.length rfl choices
-    (fun i => h.sc2 (V0.getD i 0))
-    (recvAt h VC choices (additiveSend (lawful F repr) h V0 V1 gadget.length alpha).1)
-    (fun i hi => by have := (hadd i hi).1; rwa [getD_map_range _ _ _ _ hi, getD_map_range _ _ _ _ hi] at this)
-    (fun i hi => by have := (hadd i hi).2; rwa [getD_map_range _ _ _ _ hi, getD_map_range _ _ _ _ hi] at this)
-  have hon : recvRound2 repr h VC gadget choices chi (honestMsg repr h V0 V1 gadget alpha chi) = some shareR := hR
-  rw [hon]
-  exact alteration_core repr h VC gadget choices chi hchi0 _ m' (by simp [honestMsg, additiveSend]) shareR hon halt
-
+  obtain ⟨hlc, hlr⟩ := honestMsg_lengths repr h V0 V1 gadget alpha chi
+  cases halt with
+  | combLen l' hl hm =>
+    left; subst hm
+    unfold recvRound2
+    show (if (honestMsg repr h V0 V1 gadget alpha chi).rCheck.length ≠ gadget.length then none
+      else if l'.length ≠ gadget.length then none else _) = none
+    rw [if_neg (by rw [hlr]; simp), if_pos (by rw [← hlc]; exact hl)]
+  | rcLen l' hl hm =>
+    left; subst hm
+    unfold recvRound2
+    show (if l'.length ≠ gadget.length then none else _) = none
+    rw [if_pos (by rw [← hlr]; exact hl)]
+  | field hf =>
+    obtain ⟨e1, e2⟩ := hf.lengths
+    rw [recvRound2_of_len repr h VC gadget choices chi m' (by rw [e1, hlc]) (by rw [e2, hlr]),
+      recvRound2_of_len repr h VC gadget choices chi _ hlc hlr]
+    have hadd := additive_sum repr h V0 V1 VC gadget.length choices alpha hvc
+    simp only [additiveRecv_eq, additiveSend_result] at hadd
+    obtain ⟨shareR, hR, _⟩ := mul_finish_correct repr chi alpha gadget gadget.length rfl choices
+      (fun i => h.sc2 (V0.getD i 0))
+      (recvAt h VC choices (additiveSend (lawful F repr) h V0 V1 gadget.length alpha).1)
+      (fun i hi => by have := (hadd i hi).1; rwa [getD_map_range _ _ _ _ hi, getD_map_range _ _ _ _ hi] at this)
+      (fun i hi => by have := (hadd i hi).2; rwa [getD_map_range _ _ _ _ hi, getD_map_range _ _ _ _ hi] at this)
+    have hon : recvCore repr h VC gadget choices chi (honestMsg repr h V0 V1 gadget alpha chi) = some shareR := hR
+    rw [hon]
+    exact alteration_core repr h VC gadget choices chi hchi0 _ m' hlc shareR hon hf
 
 /-- the alteration theorem inside a whole honest run on a correct setup: whatever single field of
     the sender's message is changed in transit, the receiver's second round fails its check or
